@@ -112,18 +112,20 @@ func ruleWaitBeforeReturn(c *Ctx, rule string) {
 	}
 	var initCall, waitCall *ssa.Call
 	var waitAppend, finalAppend *ssa.Call
+	initFn := resolveRole(c, genPkg, "generateAsyncInitialization")
+	waitFn := resolveRole(c, genPkg, "generateAsyncWaitStatements")
 	for _, cs := range callsIn(fn) {
 		if cal := cs.common.StaticCallee(); cal != nil {
-			switch cal.Name() {
-			case "generateAsyncInitialization":
+			switch cal {
+			case initFn:
 				initCall = cs.value()
-			case "generateAsyncWaitStatements":
+			case waitFn:
 				waitCall = cs.value()
 			}
 		}
 	}
 	for _, a := range appendsIn(L, fn) {
-		if strings.Contains(a.label, "generateAsyncWaitStatements") {
+		if waitCall != nil && resolve(a.call.Common().Args[1]) == ssa.Value(waitCall) {
 			waitAppend = a.call
 		}
 		if strings.Contains(a.label, "lit:ReturnStmt") {
@@ -158,7 +160,7 @@ func ruleWaitBeforeReturn(c *Ctx, rule string) {
 	// the wait templates themselves: both branches contain a call of <group>.Wait
 	nWait := 0
 	for _, s := range collectTemplates(L.Pkgs[genPkg]) {
-		if s.fnName() == "generateAsyncWaitStatements" && s.kind == "SelectorExpr" {
+		if waitCall.Common().StaticCallee() != nil && s.fn.Name.Name == waitCall.Common().StaticCallee().Name() && s.kind == "SelectorExpr" {
 			if n, ok := identConst(s.pkg, s.fn, s.fields["Sel"]); ok && n == "Wait" {
 				nWait++
 			}
@@ -412,7 +414,7 @@ func ruleErrorFlow(c *Ctx, rule string, c06, c07, c08 bool) {
 	}
 	// dynamic calls of the handler parameter
 	var handlerCalls []*ssa.Call
-	for _, fn := range []*ssa.Function{bws, L.fn(genPkg, "(*InjectorProviderCallStmt).buildErrorHandlingStatement")} {
+	for _, fn := range []*ssa.Function{bws, resolveRole(c, genPkg, "(*InjectorProviderCallStmt).buildErrorHandlingStatement")} {
 		if fn == nil {
 			continue
 		}
@@ -446,7 +448,7 @@ func ruleErrorFlow(c *Ctx, rule string, c06, c07, c08 bool) {
 			s := newSym(L, map[string]bool{})
 			_ = s
 			for _, site := range collectTemplates(L.Pkgs[genPkg]) {
-				if site.fnName() == "InjectorProviderCallStmt.buildWaitStatement" && site.kind == "SelectorExpr" {
+				if site.fn.Name.Name == bws.Name() && site.kind == "SelectorExpr" {
 					if n, ok := identConst(site.pkg, site.fn, site.fields["Sel"]); ok && n == "Err" {
 						isCtxErr = true
 					}
@@ -473,7 +475,7 @@ func ruleErrorFlow(c *Ctx, rule string, c06, c07, c08 bool) {
 		if fn := genFn(c, rule, "(*InjectorProviderCallStmt).Stmt"); fn != nil {
 			okErr := false
 			for _, cs := range callsIn(fn) {
-				if cal := cs.common.StaticCallee(); cal != nil && cal.Name() == "buildErrorHandlingStatement" {
+				if calleeIs(c, cs, genPkg, "(*InjectorProviderCallStmt).buildErrorHandlingStatement") {
 					// arg1 is the ident created from the pool's err name, the same ident appended to lhs
 					id := resolve(cs.arg(1))
 					for _, a := range appendsIn(L, fn) {
@@ -578,7 +580,7 @@ func ruleErrorFlow(c *Ctx, rule string, c06, c07, c08 bool) {
 				}
 			}
 			for _, site := range collectTemplates(L.Pkgs[genPkg]) {
-				if site.fnLit != nil && site.fn.Name.Name == "generateStmts" && site.kind == "SelectorExpr" {
+				if site.fnLit != nil && site.fn.Name.Name == gs.Name() && site.kind == "SelectorExpr" {
 					if n, ok := identConst(site.pkg, site.fn, site.fields["Sel"]); ok && (n == "Wait" || n == "cancel") {
 						hasWait = true
 					}
@@ -616,7 +618,7 @@ func ruleIgnoredWait(c *Ctx, rule string) {
 			if s2.kind == "SelectorExpr" && s2.nestedIn("AssignStmt") == s {
 				if n, ok := identConst(p, s2.fn, s2.fields["Sel"]); ok && n == "Wait" {
 					found = true
-					c.fail(rule, s.fnName()+":ignored-Wait-result", L.pos(s.lit.Pos()),
+					c.fail(rule, "template:ignored-Wait-result", L.pos(s.lit.Pos()),
 						"when the injector has no error result the outcome of eg.Wait() is discarded: a goroutine that left early (ctx.Done()) leaves the returned variable unset and the injector returns a zero value without any error",
 						"template `_ = <group>.Wait()`")
 				}
@@ -662,7 +664,7 @@ func ruleContextThreaded(c *Ctx, rule string) {
 		ok := false
 		why := "call not found"
 		for _, cs := range callsIn(fn) {
-			if cal := cs.common.StaticCallee(); cal != nil && cal.Name() == "generateErrGroupDeclaration" {
+			if calleeIs(c, cs, genPkg, "generateErrGroupDeclaration") {
 				arg := cs.common.Args[len(cs.common.Args)-1]
 				s := newSym(L, map[string]bool{})
 				ts := s.eval(arg)
@@ -724,7 +726,7 @@ func ruleContextThreaded(c *Ctx, rule string) {
 	if build := genFn(c, rule, "(*Graph).Build"); build != nil {
 		var inj *ssa.Call
 		for _, cs := range callsIn(build) {
-			if cal := cs.common.StaticCallee(); cal != nil && cal.Name() == "injectContextArg" {
+			if calleeIs(c, cs, genPkg, "(*Graph).injectContextArg") {
 				inj = cs.value()
 			}
 		}
@@ -742,7 +744,7 @@ func ruleContextThreaded(c *Ctx, rule string) {
 		// the early return without injecting is taken only when no scheduled provider is async
 		okGate := false
 		for _, cs := range callsIn(ica) {
-			if cal := cs.common.StaticCallee(); cal != nil && cal.Name() == "hasAsyncProviders" && cs.value() != nil {
+			if calleeIs(c, cs, genPkg, "(*Graph).hasAsyncProviders") && cs.value() != nil {
 				for _, r := range *cs.value().Referrers() {
 					if iff, ok := r.(*ssa.If); ok {
 						// true edge must not return immediately
